@@ -23,7 +23,7 @@ N = {"quick": 360, "thorough": 12000}
 def cases(tier, seed):
     return [dict(seed=seed, i=i, o=(dict(null_cells=True, allow_pointer_config=False) if i % 6 == 5 else (
         dict(cat_key=True, fixed_effects={}, district=bool(i % 24 == 10)) if i % 12 == 10 else None)),
-                 polls=(3 if i % 6 == 2 else 0)) for i in range(N[tier])]
+                 polls=(3 if i % 6 == 2 else 0), shared_feed=bool(i % 12 == 2)) for i in range(N[tier])]
 
 
 def _post(out, ctx):
